@@ -1,6 +1,7 @@
 #!/bin/bash
 # (re)create _CoqProject and Makefile from the files present; then run make with the given targets
 cd "$(dirname "$0")"
+# the lock only protects the regeneration of _CoqProject/Makefile; make itself runs unlocked
 exec 9>.mklock; flock 9
 {
   echo "-Q base Base"; echo "-Q gen Gen"; echo "-Q model Model"; echo "-Q proofs Proofs"; echo "-Q props Props"
@@ -8,4 +9,7 @@ exec 9>.mklock; flock 9
 } > _CoqProject.new
 if ! cmp -s _CoqProject.new _CoqProject; then mv _CoqProject.new _CoqProject; coq_makefile -f _CoqProject -o Makefile >/dev/null; else rm _CoqProject.new; fi
 [ -f Makefile ] || coq_makefile -f _CoqProject -o Makefile >/dev/null
+flock -u 9; exec 9>&-
+# memory guard: a runaway coqc must not take the machine down
+ulimit -v ${VERIF_COQ_MEM_KB:-25000000} 2>/dev/null
 exec timeout ${VERIF_MAKE_TIMEOUT:-1500} make -j${VERIF_JOBS:-16} "$@"
